@@ -5,6 +5,7 @@ go 1.21
 require (
 	github.com/anishathalye/porcupine v1.3.0
 	github.com/cespare/xxhash/v2 v2.2.0
+	github.com/go-sql-driver/mysql v1.7.1
 	github.com/pinealctx/neptune v0.0.0
 	github.com/redis/go-redis/v9 v9.0.4
 	go.uber.org/zap v1.24.0
@@ -15,7 +16,6 @@ require (
 require (
 	github.com/dgryski/go-rendezvous v0.0.0-20200823014737-9f7001d12a5f // indirect
 	github.com/eapache/queue v1.1.0 // indirect
-	github.com/go-sql-driver/mysql v1.7.1 // indirect
 	github.com/golang/protobuf v1.5.3 // indirect
 	github.com/golang/snappy v0.0.4 // indirect
 	github.com/jinzhu/inflection v1.0.0 // indirect
